@@ -96,6 +96,7 @@ class Normaliser:
                 self.classes[s.name] = s
         self.log: list[str] = []
         self.counter = 0
+        self._undataclass()
         # (mutually) recursive definitions are never inlined
         edges: dict[str, set[str]] = {}
         defs: dict[str, ast.FunctionDef] = dict(self.funcs)
@@ -128,6 +129,69 @@ class Normaliser:
         self._site_names: dict[tuple[int, str, int], dict[str, str]] = {}
         self._caller_locals: dict[int, set[str]] = {}
         self._keep: list[set[str]] = []          # keeps the name sets alive (their id() is a key)
+
+    def _undataclass(self) -> None:
+        """A private `@dataclass` that is only ever constructed without arguments (an accumulator: `saved = _SavedLines()`) is the
+        plain class with the `__init__` the decorator generates: every field set to its default (`field(default_factory=F)` ->
+        `F()`, evaluated per construction).  The generated __eq__ / __repr__ are not reproduced: the rewrite is applied only when
+        the class name occurs in the module as a no-argument constructor call or inside annotations, nowhere else."""
+        for name, cd in list(self.classes.items()):
+            if not name.startswith("_") or name in self.external or len(cd.decorator_list) != 1 or cd.keywords or cd.bases:
+                continue
+            d = cd.decorator_list[0]
+            if U(d) not in ("dataclass", "dataclasses.dataclass", "dataclass()", "dataclasses.dataclass()"):
+                continue
+            if any(isinstance(m, ast.FunctionDef) and m.name in ("__init__", "__post_init__", "__new__") for m in cd.body):
+                continue
+            fields: list[tuple[str, ast.AST]] = []
+            ok = True
+            for st in cd.body:
+                if isinstance(st, ast.AnnAssign) and isinstance(st.target, ast.Name):
+                    v = st.value
+                    if isinstance(v, ast.Constant):
+                        fields.append((st.target.id, v))
+                    elif isinstance(v, ast.Call) and U(v.func) in ("field", "dataclasses.field") and not v.args and len(v.keywords) == 1 \
+                            and v.keywords[0].arg == "default_factory" and isinstance(v.keywords[0].value, ast.Name) \
+                            and v.keywords[0].value.id in ("list", "dict", "set"):
+                        fields.append((st.target.id, ast.Call(func=ast.Name(id=v.keywords[0].value.id, ctx=ast.Load()), args=[], keywords=[])))
+                    elif isinstance(v, ast.Call) and U(v.func) in ("field", "dataclasses.field") and not v.args and len(v.keywords) == 1 \
+                            and v.keywords[0].arg == "default" and isinstance(v.keywords[0].value, ast.Constant):
+                        fields.append((st.target.id, v.keywords[0].value))
+                    else:
+                        ok = False
+                elif isinstance(st, ast.Assign):
+                    ok = False
+            if not ok or not fields:
+                continue
+            # uses of the class name: no-argument constructor calls, or inside annotations / string annotations
+            ann_ids: set[int] = set()
+            for n in ast.walk(self.tree):
+                for a in ([n.annotation] if isinstance(n, (ast.AnnAssign, ast.arg)) and n.annotation is not None else []) + \
+                         ([n.returns] if isinstance(n, ast.FunctionDef) and n.returns is not None else []):
+                    ann_ids |= {id(x) for x in ast.walk(a)}
+            ctor_ids: set[int] = set()
+            for n in ast.walk(self.tree):
+                if isinstance(n, ast.Call) and isinstance(n.func, ast.Name) and n.func.id == name:
+                    if n.args or n.keywords:
+                        ok = False
+                    ctor_ids.add(id(n.func))
+            for n in ast.walk(self.tree):
+                if isinstance(n, ast.Name) and n.id == name and id(n) not in ann_ids and id(n) not in ctor_ids:
+                    ok = False
+            if not ok:
+                continue
+            body: list[ast.stmt] = [ast.Assign(targets=[ast.Attribute(value=ast.Name(id="self", ctx=ast.Load()), attr=fn_, ctx=ast.Store())], value=v_, lineno=cd.lineno)
+                                    for fn_, v_ in fields]
+            init = ast.FunctionDef(name="__init__", args=ast.arguments(posonlyargs=[], args=[ast.arg(arg="self")], kwonlyargs=[], kw_defaults=[], defaults=[]),
+                                   body=body, decorator_list=[], returns=ast.Constant(value=None), lineno=cd.lineno, col_offset=cd.col_offset + 4)
+            for st in cd.body:
+                if isinstance(st, ast.AnnAssign):
+                    st.value = None
+            cd.decorator_list = []
+            first_def = next((i for i, st in enumerate(cd.body) if isinstance(st, ast.FunctionDef)), len(cd.body))
+            cd.body.insert(first_def, init)
+            ast.fix_missing_locations(cd)
+            self.log.append(f"{name}: @dataclass replaced by the __init__ it generates")
 
     # ------------------------------------------------------------------------------------------ classification
     def _helper_ok(self, h: ast.FunctionDef) -> bool:
